@@ -55,7 +55,7 @@ func defaultCfg(tier string, scratch string) Config {
 	if tier == "thorough" {
 		c.HardS = 120
 		c.SoftMS = 10000
-		c.TimeBudget = 35 * time.Minute
+		c.TimeBudget = 22 * time.Minute
 	}
 	return c
 }
@@ -97,7 +97,7 @@ func RunProperty(o RunOpts) int {
 	t0 := time.Now()
 	runDeadline = t0.Add(9 * time.Minute)
 	if o.Tier == "thorough" {
-		runDeadline = t0.Add(40 * time.Minute)
+		runDeadline = t0.Add(26 * time.Minute)
 	}
 	if o.Workers <= 0 {
 		o.Workers = runtime.NumCPU()
